@@ -450,6 +450,11 @@ func (n *NSQD) Exit() {
 
 	if n.tcpServer != nil {
 		n.tcpServer.Close()
+		// no client connection (and none of their delivery pumps) is left when
+		// the channels are flushed below: a pump that was still running took
+		// messages from a channel that was being closed - also the ones the
+		// flush had just written to its disk queue - and they were lost
+		n.tcpServer.Wait()
 	}
 
 	if n.httpListener != nil {
